@@ -239,13 +239,23 @@ def check_update_body(c: Dict[str, Any]) -> List[Any]:
     hd = {k.lower(): v for k, v in m['headers']}
     body = m['body']
     out = []
-    if hd.get(b'content-encoding') == b'gzip':
-        try:
-            body = gzip.decompress(body)
-        except Exception as e:
-            return [V('advertised-gzip-does-not-decompress', feat, repr(e))]
-    elif b'content-encoding' in hd:
-        out.append(V('stale-content-encoding-kept', feat, hd[b'content-encoding']))
+    # undo the content codings the rebuilt message declares, outermost (last listed) first, the way any recipient would
+    import zlib
+    codings = [x.strip().lower() for x in hd.get(b'content-encoding', b'').split(b',') if x.strip()]
+    for coding in reversed(codings):
+        if coding in (b'gzip', b'x-gzip'):
+            try:
+                body = gzip.decompress(body)
+            except Exception as e:
+                return [V('advertised-gzip-does-not-decompress', feat, repr(e))]
+        elif coding == b'deflate':
+            try:
+                body = zlib.decompress(body)
+            except Exception as e:
+                return [V('advertised-coding-does-not-decode', feat, repr(e))]
+        elif coding != b'identity':
+            out.append(V('stale-content-encoding-kept', feat, hd[b'content-encoding']))
+            break
     if body != c['new']:
         out.append(V('updated-body-differs', feat, body[:80], c['new'][:80]))
     if hd.get(b'content-type') != c['ctype']:
@@ -260,7 +270,7 @@ def check_update_body(c: Dict[str, Any]) -> List[Any]:
 @st.composite
 def update_cases(draw: Any) -> Dict[str, Any]:
     kind = draw(st.sampled_from(['req', 'resp']))
-    enc = draw(st.sampled_from(['none', 'none', 'gzip', 'br', 'deflate']))
+    enc = draw(st.sampled_from(['none', 'none', 'gzip', 'gzip', 'br', 'deflate', 'GZIP', 'x-gzip', 'deflate, gzip', 'gzip, gzip', 'gzip,deflate', 'identity', 'br, gzip']))
     if kind == 'req':
         msg = draw(G.request_spec(framings=('cl', 'chunked', 'none'), versions=(b'HTTP/1.1',), methods=st.sampled_from([b'POST', b'PUT']),
                                   plain_chunked=True, max_body=200))
